@@ -9,7 +9,10 @@ from vlib.facts import kids, strip, walk, is_call, call_args, call_object, calle
 from vlib.cfg import write_target
 from vlib.work import AnalysisBroken
 
-UNITS = ["src/occa/internal/lang/modes/openmp.cpp", "src/occa/internal/lang/modes/serial.cpp", "src/occa/internal/lang/builtins/attributes/atomic.cpp"]
+UNITS = ["src/occa/internal/lang/modes/openmp.cpp", "src/occa/internal/lang/modes/serial.cpp", "src/occa/internal/lang/builtins/attributes/atomic.cpp",
+         "src/occa/internal/lang/builtins/attributes/exclusive.cpp", "src/occa/internal/lang/builtins/attributes/shared.cpp", "src/occa/internal/lang/builtins/attributes/tile.cpp",
+         "src/occa/internal/lang/builtins/attributes/dim.cpp"]
+SHARING = ("occa::lang::static_", "occa::lang::extern_", "occa::lang::register_")
 OMP = "occa::lang::okl::openmpParser::"
 AT = "occa::lang::attributes::atomic::"
 SP = "occa::lang::okl::serialParser::"
@@ -22,6 +25,7 @@ def run(ctx):
                      "kernel when broken: @atomic statements always receive an omp atomic/critical pragma, the parallel region is opened only on outermost @outer loops, and the @exclusive index is declared inside the parallel loop body.")
     R.rule("C21-R1", "@atomic statements always get an omp atomic / omp critical pragma", floor=10)
     R.rule("C21-R2", "parallel region opened only on outermost @outer loops", floor=5)
+    R.rule("C21-R4", "the Serial / OpenMP translation never gives a variable a storage class that is shared between threads (static / extern): what is declared inside the parallel loop stays per thread", floor=1)
     R.rule("C21-R3", "@exclusive index declared inside the innermost @outer loop", floor=4)
 
     ap = prog.fn(OMP + "afterParsing")
@@ -158,10 +162,33 @@ def run(ctx):
     ok = any(any(c["k"] == "CXXMemberCallExpr" and callee(c) == se.q for c in l.walk()) and any(x["k"] == "StringLiteral" and literal(x) == "exclusive" for x in l.walk()) for l in lam)
     R.ob("C21-R3", ok, sx.q, "declared for every @exclusive declaration", "%s:%d" % (sx.relfile, sx.d["line"]), "nestedForEachDeclaration -> setupExclusiveDeclaration under hasAttribute(\"exclusive\")")
 
+    # ---- R4: who-adds a qualifier, and which ------------------------------------------------------------------------------------------
+    n_add = 0
+    for f in prog.funcs.values():
+        if f.d.get("tmpl") == "inst" or not f.relfile.startswith("src/occa/internal/lang/"):
+            continue
+        for c in f.walk():
+            if not is_call(c):
+                continue
+            cq = callee(c) or ""
+            short = cq.split("::")[-1]
+            if not (("qualifiers_t::" in cq or "vartype_t::" in cq or "variable_t::" in cq) and short in ("add", "addFirst", "operator+=", "operator+")):
+                continue
+            quals = sorted({x.get("n", "") for a in kids(c) for x in walk(a) if x["k"] == "DeclRefExpr" and "qualifier_t" in f.type(x) and x.get("n", "").startswith("occa::lang::")})
+            if not quals:
+                continue
+            n_add += 1
+            bad = [q for q in quals if q in SHARING]
+            R.ob("C21-R4", not bad, f.q, "adds qualifier %s" % ", ".join(q.split("::")[-1] for q in quals), f.site(c),
+                 "not a storage class" if not bad else
+                 "the translation declares a variable `%s`: inside the `omp parallel for` loop one object is then shared by all threads (an @exclusive / @shared / tile variable is no longer private) - a data race, results depend on the thread count" % bad[0].split("::")[-1])
+    if n_add < 1:
+        raise AnalysisBroken("no qualifier-adding call found in the Serial/OpenMP translation units")
+
 
 META = {
     "technique": "must-pass-through on the OpenMP parser's afterParsing and on both atomic callbacks; who-creates for the parallel pragma text; placement facts (constructor/addFirst/addBefore arguments) of the pragma and of the exclusive index declaration",
-    "level": "PARTIAL: decides three placement facts of the OpenMP generator on all of its paths - @atomic expression and block statements always receive `omp atomic` / `omp critical` immediately before them, `omp parallel for` is attached "
-             "only to outermost @outer loops, and the @exclusive index is declared at the top of the innermost @outer loop body (hence per thread). Each is necessary for one guarantee named in the statement.",
+    "level": "PARTIAL: decides four placement facts of the OpenMP generator on all of its paths - @atomic expression and block statements always receive `omp atomic` / `omp critical` immediately before them, `omp parallel for` is attached "
+             "only to outermost @outer loops, the @exclusive index is declared at the top of the innermost @outer loop body (hence per thread), and no translation step adds a static / extern storage class to a variable. Each is necessary for one guarantee named in the statement.",
     "note": "Does NOT decide race freedom or output equality of generated programs for all thread counts and schedules (that is a property of executions of generated code), mixing of atomic and critical on one variable, or user loop bodies.",
 }
